@@ -112,6 +112,9 @@ def cases(tier, seed):
     nfam = 48 if tier == 'quick' else 240
     for k in range(0, nfam, 4):
         out.append(('orthogonal_converged/MMC/%d-%d' % (k, k + 3), ('orthconv', 'MMC', list(range(k, k + 4)), 'fam', seed)))
+    # a training set with more than a thousand distinct points (anything estimated from "the first N points" after an
+    # internal sort depends on the frame)
+    out.append(('orthogonal_large/ITML/1300_points', ('orthlarge', 'ITML', 0, 'large', seed)))
     if tier == 'thorough':
         for i, (name, o) in enumerate(ROT_LEARNERS):
             out.append(('orthogonal/%s/%d/S5' % (name, i), ('orth', name, i, 'S5', seed)))
@@ -150,6 +153,38 @@ def run_orthconv(spec):
                 sample={'relation': 'orthogonal map, MMC with default budget', 'family members': ks})
 
 
+def run_orthlarge(spec):
+    import metric_learn
+    rs = np.random.RandomState(1913)
+    d = 3
+    X = np.unique(np.round(rs.randn(1400, d) * np.array([3.0, 1.0, 2.0]) * 64) / 64, axis=0)
+    rs.shuffle(X)
+    X = X[:1300]
+    # every point belongs to the training pairs' point set: pairs over all 1300 points
+    allidx = np.array([(i, (i * 7 + 3) % 1300) for i in range(1300)])
+    alld = np.sqrt(((X[allidx[:, 0]] - X[allidx[:, 1]]) ** 2).sum(1))
+    ally = np.where(alld < np.median(alld), 1, -1)
+    viol, sigs = [], set()
+    worst = 0.0
+    evals = 0
+    ref = metric_learn.ITML(max_iter=3).fit(X[allidx], ally)
+    M0 = ref.get_mahalanobis_matrix()
+    for qi, Q in enumerate([pyth(d, 3, 4, 5), pyth(d, 5, 12, 13, 0, 2), pyth(d, 3, 4, 5, 1, 2).dot(pyth(d, 5, 12, 13))]):
+        X2 = X.dot(Q.T)
+        e2 = metric_learn.ITML(max_iter=3).fit(X2[allidx], ally)
+        evals += 1
+        M2 = e2.get_mahalanobis_matrix()
+        devM = float(np.abs(M2 - Q.dot(M0).dot(Q.T)).max() / np.abs(M0).max())
+        devb = float(np.abs(e2.bounds_ - ref.bounds_).max() / np.abs(ref.bounds_).max())
+        worst = max(worst, max(devM, devb) / TOL_ITML)
+        sigs.add(('orthlarge', qi))
+        if max(devM, devb) > TOL_ITML:
+            viol.append(V('ITML.fit', 'orthogonal', 'ITML on 1300 distinct points: a rotation changes the learned matrix by %.3g relative and the '
+                          'default bounds_ by %.3g relative [map %d]' % (devM, devb, qi), ['orthogonal', 'more_than_1000_points']))
+    return dict(evals=evals, sigs=sigs, viol=viol, headroom={'orthogonal_large:itml': worst},
+                sample={'relation': 'orthogonal map', 'estimator': 'ITML', 'training points': 1300, 'pairs': 1300, 'maps': 3})
+
+
 def ml_MMC(**kw):
     import metric_learn
     return metric_learn.MMC(**kw)
@@ -159,6 +194,8 @@ def run_case(spec):
     warnings.simplefilter('ignore')
     if spec[0] == 'orthconv':
         return run_orthconv(spec)
+    if spec[0] == 'orthlarge':
+        return run_orthlarge(spec)
     kind, name = spec[0], spec[1]
     dsn, seed = spec[-2], spec[-1]
     ds = data.dataset('R', seed) if dsn == 'R' else data.dataset(dsn)
